@@ -171,7 +171,7 @@ KANI_UNITS["C30"] = dict(
     prop="C30", crate="varpulis-cluster",
     appends=[("crates/varpulis-cluster/src/rate_limit.rs", "__vpv_c30", "contracts/kani/c30.rs")],
     grade="K-complete", level="other", timeout=3600, harness_timeout=900,
-    cell_grades={"c30_reset_after_rate1$|c30_reset_after_rate50$|c30_refill_rate|c30_try_consume_rate": "K-bounded(concrete refill rate; every other input full-domain)"},
+    cell_grades={"c30_reset_after_rate1$|c30_reset_after_rate50$|c30_refill_rate|c30_try_consume_rate": "K-bounded(concrete refill rate, elapsed time a whole number of seconds <= 900 000; bucket state and burst full-domain)"},
     native_grade="bounded(native exhaustive enumeration: <= 3 clients, table capacity >= clients, burst 0..=2, rate 0, every request sequence of length <= 7)",
     functions=["varpulis-cluster/src/rate_limit.rs: TokenBucket::new, remaining, reset_after, refill, try_consume, RateLimitConfig::new (Kani)",
                "varpulis-cluster/src/rate_limit.rs: RateLimiter::check (native enumeration)"],
